@@ -1,56 +1,65 @@
 (* C24 - pooled connections carry no state from a previous checkout.
    Statements only.  Model: engine/ResetSeq.v (one pooled DBAPI connection used by a sequence of users
-   through the engine-level Connection API; reset-on-return, characteristic finalisers, GC path),
-   transcribing the code as of commit 4102dab (Connection.close() skips the pool's reset only when
-   it rolled an ACTIVE transaction back itself). *)
+   through the engine-level Connection API: transactions, savepoints, execution_options calls naming
+   any subset of isolation_level / logging_token / other options, option engines; reset-on-return, the
+   characteristic finalisers of the pool record, GC path), transcribing the code as of commit 4102dab. *)
 From Coq Require Import List ZArith Bool.
 Import ListNotations.
 From SAV.engine Require Import ResetSeq ResetSeqProofs.
 Open Scope Z_scope.
 
-(* clean_on_checkout: for reset_on_return = rollback or commit, every pool class, every history of
-   users (commit, rollback, nothing, failing statements, failing commit / rollback, dropped references,
-   isolation-level / autocommit changes, invalidation, never returning the connection) and every fault
-   script, the connection handed to the next checkout has no open transaction, no uncommitted writes
-   and the default isolation level / autocommit setting *)
-Theorem c24_clean_on_checkout : forall reset kind, reset <> RNone -> forall us fl,
-  pristine (next_checkout (run reset kind us (init fl))) = true.
+(* clean_on_checkout: for reset_on_return = rollback or commit, every pool class, with or without the
+   BEGIN-emitting listener and an option engine, every history of users - commit, rollback, nothing,
+   failing statements, failing commit / rollback, begin_nested() and commit / rollback / close of
+   savepoints, close() or drop with savepoints open, any sequence of execution_options calls,
+   invalidation, never returning the connection - and every fault script: the connection handed to the
+   next checkout has no open transaction, no uncommitted writes and the default isolation level /
+   autocommit setting *)
+Theorem c24_clean_on_checkout : forall reset kind begin_emits engine_iso, reset <> RNone -> forall us fl,
+  pristine (next_checkout (run reset kind begin_emits engine_iso us (init fl))) = true.
 Proof. exact clean_on_checkout. Qed.
 Print Assumptions c24_clean_on_checkout.
 
 (* reset_exactly_once_or_skipped_soundly: transaction_was_reset=True never reaches
    _ConnectionFairy._reset while the DBAPI transaction is still open *)
-Theorem c24_reset_skipped_soundly : forall reset kind us fl,
-  twr_unsound (run reset kind us (init fl)) = false.
+Theorem c24_reset_skipped_soundly : forall reset kind begin_emits engine_iso us fl,
+  twr_unsound (run reset kind begin_emits engine_iso us (init fl)) = false.
 Proof. exact reset_skipped_soundly. Qed.
 Print Assumptions c24_reset_skipped_soundly.
 
-(* characteristics_restored: unconditionally (every reset style incl. None) the next checkout sees the
-   default isolation level and autocommit setting ... *)
-Theorem c24_characteristics_restored : forall reset kind us fl,
-  iso (next_checkout (run reset kind us (init fl))) = 0 /\ autoc (next_checkout (run reset kind us (init fl))) = false.
+(* characteristics_restored: unconditionally (every reset style incl. None, any list of option calls
+   per checkout - several options in one call, several calls, an option engine on top) the next
+   checkout sees the default isolation level and autocommit setting ... *)
+Theorem c24_characteristics_restored : forall reset kind begin_emits engine_iso us fl,
+  let d := next_checkout (run reset kind begin_emits engine_iso us (init fl)) in
+  iso d = 0 /\ autoc d = false.
 Proof. exact characteristics_restored. Qed.
 Print Assumptions c24_characteristics_restored.
 
-(* ... because during a checkout every characteristic that was set has a pending finaliser *)
-Theorem c24_finaliser_pending : forall reset kind ops d s codes c s',
-  iso d = 0 /\ autoc d = false -> (dirty d = true -> in_txn d = true) ->
-  do_ops reset kind ops (mkcst d None O false) s [] = (codes, c, s') ->
-  nfin c = O -> iso (cdb c) = 0 /\ autoc (cdb c) = false.
+(* ... because while a connection is checked out, a non-default isolation level / autocommit setting
+   always has a pending finaliser that resets the isolation level *)
+Theorem c24_finaliser_pending : forall reset kind begin_emits engine_iso ops d s c0 s0 codes c s',
+  iso d = 0 /\ autoc d = false ->
+  (dirty d = true -> in_txn d = true) /\ (forall e, In e (sp d) -> fst e = true -> in_txn d = true) ->
+  connect engine_iso d s = (c0, s0) ->
+  do_ops reset kind begin_emits ops c0 s0 [] = (codes, c, s') -> done c = false ->
+  (iso (cdb c) = 0 /\ autoc (cdb c) = false) \/ In true (fins c).
 Proof. exact finaliser_pending. Qed.
 Print Assumptions c24_finaliser_pending.
 
-(* the former refutation witnesses (failed COMMIT followed by close(), fixed by commit 4102dab): the
-   pool's reset now rolls the transaction back; fake DBAPI and SQLite (deferred foreign key) *)
+(* the former refutation witnesses (failed COMMIT followed by close(), fixed by commit 4102dab) *)
 Example c24_ex_failed_commit_then_close :
-  pristine (next_checkout (run RRollback PQueue [[OWrite; OCommit; OClose]] (init [1]))) = true /\
-  pristine (next_checkout (run RRollback PQueue [[OFkWrite; OCommit; OClose]] (init []))) = true /\
-  log (run RRollback PQueue [[OWrite; OCommit; OClose]] (init [1])) = [1; 2].
+  pristine (next_checkout (run RRollback PQueue false 0 [[OWrite; OCommit; OClose]] (init [1]))) = true /\
+  pristine (next_checkout (run RRollback PQueue true 0 [[OFkWrite; OCommit; OClose]] (init []))) = true /\
+  log (run RRollback PQueue false 0 [[OWrite; OCommit; OClose]] (init [1])) = [1; 2].
 Proof. vm_compute. auto. Qed.
 
-(* non-vacuity: a history with a failing rollback at close, dropped references with pending
-   characteristics and a user that never returns its connection ends pristine on the same connection *)
+(* non-vacuity: option engine (AUTOCOMMIT) + a token-only call + a call naming both, close() with a
+   savepoint open, rollback to a savepoint that had captured a deferred violation *)
 Example c24_ex_history :
-  let s := run RRollback PQueue [[OIso; OWrite; OClose; ODrop]; [OAutoc; OWrite; OBegin; ODrop]; [OWrite; ORollback; OWrite]] (init [1]) in
-  pristine (next_checkout s) = true /\ nconn s = 1.
+  let s := run RRollback PQueue false 2
+             [[OOpts 0 true false; OWrite; ONBegin; OWrite; OClose]; [OOpts 1 true true; OOpts 0 true false]] (init []) in
+  pristine (next_checkout s) = true /\ nconn s = 1 /\
+  let s2 := run RRollback PQueue true 1 [[OWrite; ONBegin; OFkWrite; ONRollback; ONBegin; OWrite; OCommit]; [OWrite]] (init []) in
+  pristine (next_checkout s2) = true /\ log s2 = [3; 7; 2; 3].
 Proof. vm_compute. auto. Qed.
